@@ -1,0 +1,59 @@
+//go:build verif
+
+package driver
+
+// Contracts for gocv (contract-based deductive verification, /verif).
+
+// dirty: something has been handed to the write-ahead log since its last successful flush.
+//@ ghost var dirty bool
+//@ extern func github.com/NethermindEth/juno/consensus/walstore.TendermintWALStore.SetWALEntry
+//@   logged
+//@   assigns dirty
+//@   ensures result == nil ==> dirty
+//@   ensures result != nil ==> (old(dirty) ==> dirty)
+//@ extern func github.com/NethermindEth/juno/consensus/walstore.TendermintWALStore.Flush
+//@   logged
+//@   assigns dirty
+//@   ensures result == nil ==> !dirty
+//@ extern func github.com/NethermindEth/juno/consensus/walstore.TendermintWALStore.DeleteWALEntries
+//@   logged
+//@   assigns dirty
+//@   ensures dirty
+//@ extern func github.com/NethermindEth/juno/consensus/p2p.Broadcaster.Broadcast
+//@   logged
+//@ func (CommitListener).OnCommit
+//@   logged
+
+// Timers and sync triggers do not touch the write-ahead log.
+//@ func (*Driver).scheduleTimeout
+//@   trusted
+//@   modifies maps
+//@ func (*Driver).triggerSync
+//@   trusted
+//@   modifies d.lastQuorum
+
+// Nothing becomes visible to peers (a broadcast, a commit) while the log holds unflushed
+// entries - unless the driver is replaying its own log.
+//@ func (*Driver).execute
+//@   props C13
+//@   arith int
+//@   requires d != nil
+//@   requires wf_actions: forall i int :: 0 <= i && i < len(resultActions) ==> resultActions[i] != nil && cast(resultActions[i], *actions.TriggerSync) != nil
+//@   requires wf_commit: forall i int :: 0 <= i && i < len(resultActions) && istype(resultActions[i], *actions.Commit) ==> cast(resultActions[i], *actions.Commit).Value != nil
+//@   modifies d.lastQuorum
+//@   modifies maps
+//@   loop 1: invariant bounds: -1 <= rangeindex && rangeindex < len(resultActions)
+//@   assigns dirty, calls_SetWALEntry, calls_Flush, calls_DeleteWALEntries, calls_Broadcast, calls_OnCommit, arg_SetWALEntry_entry, arg_DeleteWALEntries_height
+//@   callsite Broadcast@*: flushed_first: isReplaying || !dirty
+//@   callsite commit@*: flushed_first: isReplaying || !dirty
+//@   callsite SetWALEntry@*: not_when_replaying: !isReplaying
+
+// Commit: deliver the decision, then prune the log for that height, then flush.
+//@ func (*Driver).commit
+//@   props C13
+//@   arith int
+//@   requires d != nil && commit != nil && commit.Value != nil
+//@   assigns dirty, calls_Flush, calls_DeleteWALEntries, calls_OnCommit, arg_DeleteWALEntries_height
+//@   callsite DeleteWALEntries@*: after_decision_delivered: calls_OnCommit == old(calls_OnCommit) + 1 && height == commit.Height
+//@   callsite Flush@*: after_prune: calls_DeleteWALEntries == old(calls_DeleteWALEntries) + 1
+//@   ensures durable: result == nil ==> !dirty && calls_OnCommit == old(calls_OnCommit) + 1 && calls_DeleteWALEntries == old(calls_DeleteWALEntries) + 1 && calls_Flush == old(calls_Flush) + 1
